@@ -19,6 +19,32 @@ Theorem declared_functional : forall f g S n d1 d2,
 Proof. exact declared_f_functional. Qed.
 Print Assumptions declared_functional.
 
+(* PARTIAL.  For every document of the core fragment ([core_spec]: properties are $refs / primitives / arrays of them,
+   schemas are such objects, allOf over ($ref | such object), primitives, enums, arrays; any number of schemas, any
+   declaration order, any depth of $ref and allOf chains) and every depth limit: if the run of the parser model fires
+   none of the loss-relevant branches (no cycle placeholder stored or returned, no depth placeholder, no early return
+   of an existing/placeholder schema, no overwrite, no dangling $ref: [events = []] — these are exactly the guards
+   F02a/F02c/F02d/F02f of the correspondence driver plus the early-return events) and all schemas got registered, then
+   every declared schema has a model that is not a placeholder and whose fields are exactly the declared ones
+   (own + inherited through allOf; key, required flag, type reference).
+   Goal not reached (stated, not proved):  forall spec, no_capture spec -> events (parse_doc md spec) = [] -> ... for ALL
+   node shapes (inline objects, maps, unions), and the static lemma  acyclic_refs spec -> events (parse_doc md spec) = []. *)
+Theorem C02_partial : forall md S,
+  core_spec S = true ->
+  let s := parse_doc md S in
+  events s = [] -> oof s = false -> all_present S s = true ->
+  forall n, In n (map fst S) -> faithful S s n.
+Proof. exact C02_core. Qed.
+Print Assumptions C02_partial.
+
+Theorem C02_guard_nonvacuous :
+  core_spec spec_ok = true /\ events (parse_doc default_max_depth spec_ok) = []
+  /\ oof (parse_doc default_max_depth spec_ok) = false /\ all_present spec_ok (parse_doc default_max_depth spec_ok) = true
+  /\ model_fields (parse_doc default_max_depth spec_ok) sPet
+     = Some [(sident, true, TPrim PInteger); (skind, false, TRef sKind); (stag, true, TRef sTag); (snames, false, TList (TPrim PString))].
+Proof. exact guard_nonvacuous. Qed.
+Print Assumptions C02_guard_nonvacuous.
+
 Theorem C02_refuted_F02a :
   guard_F02a (parse_doc default_max_depth spec_F02a) = false
   /\ ~ faithful spec_F02a (parse_doc default_max_depth spec_F02a) sUser
